@@ -3,7 +3,7 @@
 (* definition of the root module at start-up).                                               *)
 EXTENDS Electrolytes_MC
 
-LawPts_t == LimPts(I_t, I0_t, Z_w, A_t) \cup ExtPts(I_t, I0_t, Z_w, A_t, B_t, Sz_t, Cx_t)
+LawPts_t == LimPts(I_t, I0_t, Z_w, A_t) \cup ExtPts(I_t, I0_q, Z_w, A_t, B_t, Sz_t, Cx_q)
                 \cup DavPts(I_t, I0_t, Z_w, A_t, Cd_t)
 
 ABPts_t == ABPts(T_t, Ep_t, Rh_t)
@@ -11,4 +11,5 @@ ABPts_t == ABPts(T_t, Ep_t, Rh_t)
 ProdPts_t == ProdPts({"lap", "eap", "dap"}, {R(0, 1), R(1, 1000), R(1, 100), R(1, 10), R(1, 4)},
                      {R(5463, 20), R(5963, 20), R(350, 1)}, {R(392, 5), R(60, 1)},
                      {R(997, 1), R(958, 1)}, {R(0, 1), R(1, 10)})
+DHPts_t == LawPts_t \cup ABPts_t \cup ProdPts_t
 =============================================================================
